@@ -404,7 +404,13 @@ def step_own_nodes(step: Step) -> list[ast.AST]:
             if item.optional_vars is not None:
                 out.append(item.optional_vars)
         return out
-    if step.kind in ("stmt", "opaque", "excin"):
+    if step.kind in ("stmt", "opaque"):
+        return [n]
+    if step.kind == "excin":
+        # an exception inside a compound statement: which of its parts ran is unknown, and its guarded
+        # parts certainly did not run unguarded; only a simple statement's own events may have happened
+        if isinstance(n, (ast.If, ast.For, ast.AsyncFor, ast.While, ast.With, ast.AsyncWith, ast.Try)):
+            return []
         return [n]
     return []
 
